@@ -25,6 +25,13 @@ impl Backend {
             return Ok(None);
         };
 
+        // Current text of the document, to end each symbol's range at the end of its last line
+        let content = self
+            .fixture_db
+            .file_cache
+            .get(&file_path)
+            .map(|c| c.clone());
+
         // Collect all fixture definitions for this file
         let mut symbols: Vec<DocumentSymbol> = Vec::new();
 
@@ -48,9 +55,15 @@ impl Backend {
                 // Selection range is the fixture name
                 let selection_range = Self::create_range(line, start_char, line, end_char);
 
-                // Full range includes the entire function body
+                // Full range includes the entire function body, up to the end of its last
+                // line (so that it contains the selection range of a one-line function too)
                 let end_line = Self::internal_line_to_lsp(definition.end_line);
-                let range = Self::create_range(line, 0, end_line, 0);
+                let end_col = content
+                    .as_ref()
+                    .and_then(|c| c.lines().nth(end_line as usize))
+                    .map(|l| l.encode_utf16().count() as u32)
+                    .unwrap_or(if end_line == line { end_char } else { 0 });
+                let range = Self::create_range(line, 0, end_line, end_col);
 
                 // Build detail string with return type if available
                 let detail = definition
